@@ -1360,7 +1360,15 @@ class GroupBy:
             if k in self.by and not include_groups:
                 continue
             view.cols[k] = c if isinstance(c, Poison) else V(c.t, (gax,), view.index, c.nan, c.inf, c.meta)
-        res = func(view)
+        # (ghost: contracts of functions called on the group's rows may use that pandas calls `func` only for groups that
+        # exist -- the presence predicate and its witness row)
+        wit = next((w_ for (r_, g_, p_, m_, w_) in self.interp.ctx.__dict__.get("_present_wit", []) if p_ is p or z3.eq(p_, p)), None)
+        prev = getattr(self.interp, "current_group", None)
+        self.interp.current_group = {"present": p, "witness": wit, "root": f.axis.root, "member": segs[0]}
+        try:
+            res = func(view)
+        finally:
+            self.interp.current_group = prev
         if not isinstance(res, SeriesRecord):
             raise Undecided("groupby.apply with a function that does not return pd.Series({...})")
         ax = RowAxis(gs, [p], ("sorted", tuple(self.by)))
